@@ -119,6 +119,13 @@ func c04StmtKinds(tpl exprTemplate, id int) map[string][]Stmt {
 		out["opassign"] = []Stmt{def(v, sl("pre")), OpAssign{v, "+", tpl.e}, pr(sl("="), vr(v))}
 	case TBool:
 		out["if-cond"] = []Stmt{If{Branches: []IfBranch{{tpl.e, []Stmt{pr(sl("then"))}}}, HasElse: true, Else: []Stmt{pr(sl("else"))}}}
+		// the condition in every position a condition can stand in, with and without alternatives
+		out["if-bare"] = []Stmt{If{Branches: []IfBranch{{tpl.e, []Stmt{pr(sl("then"))}}}}, pr(sl("after"))}
+		out["if-with-elseif"] = []Stmt{If{Branches: []IfBranch{{tpl.e, []Stmt{pr(sl("then"))}}, {Bf(40, true), []Stmt{pr(sl("second"))}}}}, pr(sl("after"))}
+		out["elseif-cond"] = []Stmt{If{Branches: []IfBranch{{Bf(41, false), []Stmt{pr(sl("first"))}}, {tpl.e, []Stmt{pr(sl("then"))}}}}, pr(sl("after"))}
+		out["tagless-case"] = []Stmt{Switch{Cases: []SwitchCase{{E: tpl.e, Body: []Stmt{pr(sl("then"))}}}}, pr(sl("after"))}
+		out["nested-if-bare"] = []Stmt{ifs(vr("on"), If{Branches: []IfBranch{{tpl.e, []Stmt{pr(sl("then"))}}}}), pr(sl("after"))}
+		out["for-three-cond"] = []Stmt{For{Kind: ForThree, Init: def(v, il(0)), Cond: logic("&&", cmp("<", vr(v), il(2)), Group{tpl.e}), Post: IncDec{v, true}, Body: []Stmt{pr(sl("body"), vr(v))}}, pr(sl("after"))}
 		out["for-cond"] = []Stmt{def(v, il(0)), For{Kind: ForCond, Cond: logic("&&", cmp("<", vr(v), il(2)), tpl.e), Body: []Stmt{IncDec{v, true}, pr(sl("body"), vr(v))}}}
 	}
 	if _, isCall := tpl.e.(Call); !isCall {
